@@ -34,7 +34,7 @@ CLAIMS = {
              "statistics with it; the per-leg accumulator of create_tour computes every field from the same field of the running statistic; every product "
              "of a cost coefficient pairs a per-distance coefficient with a distance and a per-time coefficient with a time; report / checker / schedule code "
              "uses the exact routing queries only (no `_approx`); distance, duration and cost of a reported leg are queried for one (from, to, departure); place "
-             "tags are indexed by place position (enumerate before any filtering). Not decided: equality up to "
+             "tags are indexed by place position (enumerate before any filtering). The reported tag is looked up for the place that was used (its own location and window); provider durations are scaled by the profile and legs are queried in travel direction (shared rules C16-F1, C01-D1). Not decided: equality up to "
              "rounding with an independent replay, load profiles, tag correctness.",
         note="Names distance/duration/waiting/... and Costs field names act as unit declarations; unknown units are silent.",
         ref="DESIGN.md §5 C03"),
@@ -107,7 +107,7 @@ CLAIMS = {
         text="Narrow clauses: every type reachable from the Problem/Matrix/Solution documents derives both Serialize and Deserialize, carries no one-sided "
              "attribute, renames agree on both sides, skip_serializing_if is only Option::is_none on Option fields; for every untagged enum no later "
              "variant serialises to JSON an earlier variant accepts; tagged enums have unique tags; every CSV import column is consumed and CSV rows are grouped "
-             "by id (never by adjacency); the initial-solution reader walks every tour, stop and activity of the document (no dropping adapter). Not decided: float "
+             "by id (never by adjacency); the initial-solution reader walks every tour, stop and activity of the document (no dropping adapter). Optional-break job ids are consecutive (numbered after the required breaks are filtered out); the activity matcher tests place windows inclusively. Not decided: float "
              "text round trip, activity matching when a solution is re-read, faithfulness of CSV values.",
         note="serde derive semantics for the listed attributes are trusted.",
         ref="DESIGN.md §5 C11"),
@@ -124,7 +124,7 @@ CLAIMS = {
         text="Faithfulness clauses: every parsed record field / builder parameter is consumed and filled from a distinct parsed position; demand, capacity "
              "and capacity feature share one load type; essential features contain capacity and transport with time windows enforced for Solomon/Li&Lim; "
              "the rounding flag selects exactly between rounded and raw Euclidean distance; written Dimensions are never dropped; Li&Lim pickups/deliveries are paired by the relation column; the initial-solution reader "
-             "visits every route token and every job (no dropping adapter). The recharge limit compares accumulator + current leg on every alternative; shared-resource consumption is summed per resource; a missing relation shift index means shift 0 (finite evaluation). Not decided: numeric equality of parsed values, place / window choice on re-reading.",
+             "visits every route token and every job (no dropping adapter). The recharge limit compares accumulator + current leg on every alternative; shared-resource consumption is summed per resource; a missing relation shift index means shift 0 (finite evaluation). Li&Lim request customers are fetched by id (keyed lookup). Not decided: numeric equality of parsed values, place / window choice on re-reading.",
         note="One genuine defect repaired (Li&Lim dimensions dropped, fix: 9670129).",
         ref="DESIGN.md §5 C13"),
     "C14": dict(
@@ -153,7 +153,7 @@ CLAIMS = {
              "timestamp index is collected from the matrices after they are sorted by timestamp (no separately sorted index); the scientific coordinate "
              "provider subtracts like coordinates (symmetric, zero diagonal by construction); between two matrix timestamps durations follow the linear "
              "interpolation formula over the (idx-1, idx) bracket with values and timestamps taken from the same matrices, distances take the left matrix "
-             "(canonical expressions). Not decided: numeric values, behaviour of binary_search itself.",
+             "(canonical expressions). The time-agnostic constructor compares every profile index with its position. Not decided: numeric values, behaviour of binary_search itself.",
         note="Per-constructor minimal counts of rejecting exits are a reasoned table; local names durations/distances act as role declarations.",
         ref="DESIGN.md §5 C16"),
     "C17": dict(
@@ -169,7 +169,7 @@ CLAIMS = {
         technique="insertion-site key/coordinate source agreement, field-store scan, edge-dominance, flag evaluation by abstract interpretation, phase-rank analysis",
         text="Narrow clauses: the node map is private and every insertion keys a node by its own coordinate; coordinates are rewritten only in the contraction "
              "remap; compaction removes nodes only when four remain, re-trains with is_new_input=false, and Network::update (evaluated over the flag) cannot "
-             "reach grow_nodes without new input; population phases only move forward. every re-assignment of an elite's capacity is followed by the truncation, every returned network creates and resizes node storages with config.node_size, compaction shifts each coordinate with its own axis' bounds and step. Not decided: finiteness of weights/errors, capacity, lookup, elite bounds.",
+             "reach grow_nodes without new input; population phases only move forward. every re-assignment of an elite's capacity is followed by the truncation, every returned network creates and resizes node storages with config.node_size, compaction shifts each coordinate with its own axis' bounds and step. Every node storage is resized to node_size after the initial balancing; the per-node error never divides by a possibly-zero size (sign analysis). Not decided: finiteness of weights/errors, capacity, lookup, elite bounds.",
         note="Phase ranks are taken from the enum declaration order (re-confirmed on change).",
         ref="DESIGN.md §5 C19"),
     "C18": dict(
